@@ -45,6 +45,7 @@ NumCases ==
     {C(NV(NumVals[k]), m, <<>>) : k \in NumIdx, m \in {"to_int", "to_bigint", "to_byte", "to_float", "abs", "sqrt", "to_str"}}
     \cup {C(NV(NumVals[k]), "pow", <<IV(e)>>) : k \in {j \in NumIdx : ~IsFloat(NumVals[j])}, e \in Exps}
     \cup {C(NV(NumVals[k]), m, <<>>) : k \in {j \in NumIdx : IsFloat(NumVals[j])}, m \in {"floor", "ceil", "round", "ipart", "fpart"}}
+    \cup {C(NV(ConvFloats[k]), m, <<>>) : k \in 1..Len(ConvFloats), m \in {"to_int", "to_bigint", "to_byte", "floor", "ceil", "round", "ipart", "fpart", "to_str", "abs"}}
     \cup {C([t |-> "num", kind |-> "byte", dec |-> ToString(n)], "to_ascii", <<>>) : n \in {32, 33, 48, 57, 65, 90, 97, 122, 126}}
 
 VARIABLE c
